@@ -25,6 +25,7 @@ func c11OrderRun(e *Env) {
 	qsize := []int{16, 2, 4}[t.Choose(3)]
 	replacements := t.Choose(3)
 	burst := 2 + t.Choose(3)
+	lateBurst := t.Chance(1, 2)
 	e.NoAutoRacy = true // the scenario keeps the queue empty whenever a replaced loop comes back (one ready select case)
 
 	type inMsg struct {
@@ -164,6 +165,26 @@ func c11OrderRun(e *Env) {
 		e.Wait()
 		w.Pump()
 		e.Probe("order.loopReplacedBefore")
+		if lateBurst && r == replacements-1 && len(e.Parked()) == 1 {
+			// the replaced loop comes back from its handler while messages are waiting: it has been replaced, they
+			// are the new loop's. The new loop sits between queue and handler with the second message, the third
+			// one is still in the queue.
+			old := e.Parked()[0]
+			parkNext()
+			second := deliver()
+			if len(e.Parked()) == 2 {
+				third := deliver()
+				e.MarkRacy() // (unrepaired code: the replaced loop's select has two ready cases - the runtime chooses)
+				e.Probe("order.replacedLoopComesBackToNonEmptyQueue")
+				e.Logf("the handler of in-%d returns: the replaced loop comes back", first.n)
+				e.Resume(old)
+				e.Wait()
+				w.Pump()
+				if entered(third) > 0 && entered(second) == 0 {
+					e.Violate("C11.R3", "dispatch-out-of-arrival-order:replaced-loop-keeps-reading", "message n=%d arrived after n=%d and reached its handler first: the reader loop that had been replaced took it from the queue when it came back from its handler (no handler ever blocked)", third.n, second.n)
+				}
+			}
+		}
 		resumeAll() // the handler of `first` runs and returns; the replaced loop comes back to an empty queue
 		if entered(first) != 1 {
 			e.Violate("C11.R1", "message-never-dispatched", "message n=%d was released to its handler and did not get there", first.n)
